@@ -79,7 +79,22 @@ def gen(ctx):
                     cases.append({"kind": "cmp-lit", "text": f"$[?@.l {op} {rl}]", "doc": [doc]})
                 if ll is not None and rl is not None and ctx.tier != "quick":
                     cases.append({"kind": "cmp-lit", "text": f"$[?{ll} {op} {rl}]", "doc": [doc]})
-    ctx.exhaustive_spaces.append("comparison table: 46 x 46 values x 6 operators, query operands and literal operands")
+    # function results as comparison operands, over the same universe (value() of a singular / non-singular query,
+    # length() of each side, count() of the children) - complete in the thorough tier, every 3rd pair in the quick tier
+    for li, l in enumerate(UNIVERSE):
+        for ri, r in enumerate(UNIVERSE):
+            if ctx.tier == "quick" and (li * len(UNIVERSE) + ri) % 3:
+                continue
+            doc = {}
+            if l is not ABSENT:
+                doc["l"] = l
+            if r is not ABSENT:
+                doc["r"] = r
+            for op in OPS:
+                for t in (f"$[?value(@.l) {op} @.r]", f"$[?@.l {op} value(@.r)]", f"$[?length(@.l) {op} length(@.r)]", f"$[?count(@.l.*) {op} @.r]",
+                          f"$[?value(@.*) {op} @.zz]", f"$[?length(@.l) {op} @.r]", f"$[?value(@.l[0]) {op} value(@.r[0])]"):
+                    cases.append({"kind": "cmp-fn", "text": t, "doc": [doc]})
+    ctx.exhaustive_spaces.append("comparison table: 46 x 46 values x 6 operators, query operands, literal operands and function-result operands")
     # (2) generated expressions
     docs = filter_docs(ctx, 25 if ctx.tier == "quick" else 300)
     nq = 1500 if ctx.tier == "quick" else 25000
@@ -113,7 +128,7 @@ def evaluate(ctx, cases):
         if "err" in o:
             ctx.case(c["text"], False)
             ctx.count("compile-error:" + o["err"])
-            if c["kind"] in ("cmp", "cmp-lit", "expr"):
+            if c["kind"] in ("cmp", "cmp-lit", "cmp-fn", "expr"):
                 ctx.violation("a well-typed RFC 9535 filter query must compile", {"text": c["text"], "ast": c.get("ast")}, o, "compiles")
             continue
         try:
